@@ -357,12 +357,10 @@ theorem tie_skel_linkedBuffer_ReadByte : Gen.Skel.linkedBuffer_ReadByte = [
   "}",
   "}",
   "r, err := l.sliceList.front().read(1)",
-  "if err == nil {",
-  "l.len--",
-  "return r[0], nil",
-  "}",
+  "for err != nil {",
   "l.readNextSlice()",
-  "r, _ = l.sliceList.front().read(1)",
+  "r, err = l.sliceList.front().read(1)",
+  "}",
   "l.len--",
   "return r[0], nil",
   "}"] := by rfl
